@@ -410,6 +410,36 @@ def _r3(ctx, repo, A, wp, sl):
             ctx.fail("C15.R3", "sleep:direct", wp.file, c.lineno, wp.qual,
                      "wait_pid sleeps without going through the deadline-checking "
                      "helper")
+    # Windows: the timeout is spent in the native wait first and then in the
+    # PID-lingering poll; ONE deadline covers both, so it is taken before the
+    # native wait blocks (a deadline taken afterwards restarts the timeout)
+    ww = repo.func("_pswindows", "Process.wait", required=False)
+    if ww is not None:
+        wcfg = A.cfg(ww)
+        nat = [n for c in calls_in(ww.node) if (dotted(c.func) or "").endswith("proc_wait")
+               for n in wcfg.owners(c)]
+        dvars = set()
+        for n in wcfg.nodes:
+            if n.kind == "raise" and isinstance(n.stmt.exc, ast.Call) \
+                    and (dotted(n.stmt.exc.func) or "").endswith("TimeoutExpired"):
+                for e, p_, _ in wcfg.guards(n):
+                    for cmp_ in [x for x in ast.walk(e) if isinstance(x, ast.Compare)]:
+                        for side in [cmp_.left] + list(cmp_.comparators):
+                            if isinstance(side, ast.Name):
+                                dvars.add(side.id)
+        dstores = [n for st_ in ast.walk(ww.node) if isinstance(st_, ast.Assign)
+                   and any(isinstance(t_, ast.Name) and t_.id in dvars for t_ in st_.targets)
+                   and any(isinstance(c_, ast.Call) for c_ in ast.walk(st_.value))
+                   for n in wcfg.nodes_of(st_)]
+        if nat and dstores and not any(wcfg.path_exists(n_, d_) for n_ in nat for d_ in dstores):
+            ctx.ok("C15.R3", "windows:one-deadline", sample="deadline taken before cext.proc_wait()")
+        elif nat and dstores:
+            ctx.fail("C15.R3", "windows:one-deadline", ww.file, ww.node.lineno, ww.qual,
+                     "the deadline of the PID-lingering poll is taken after the native wait "
+                     "returned: wait(timeout) can block for up to twice the timeout before "
+                     "raising TimeoutExpired")
+        else:
+            raise AnalysisError("_pswindows.Process.wait: native wait or deadline not found")
 
 
 # ------------------------------------------------------------------------- R4
